@@ -19,6 +19,7 @@ from vfx import nodes as N
 from vfx.pa import common as pa_common
 from vfx.pb import common as pb_common
 from vfx.pc import auto_config as pc_auto_config
+from vfx.pd import common as pd_common
 import libcst as cst
 
 PROP = 'C12'
@@ -91,6 +92,11 @@ def kinds():
               if v is not shapes.UNSET})), True),
       # positional values: positional-only + *args, and a named parameter
       # below *args (generators that cannot express them must reject)
+      # a module registered with a dotted un-aliased import statement; a
+      # classmethod inherited by a subclass that lives in another module
+      'pd': K('pd', 2, True, mk(fdl.Config, pd_common.Widget), True),
+      'inhcm2': K('inhcm2', 2, True, mk(fdl.Config, pd_common.MakerFar.make),
+                  True),
       # a classmethod inherited by, and reached through, a subclass
       'inhcm': K('inhcm', 2, True, mk(fdl.Config, N.MakerSub.make), True),
       'cpos': K('cpos', 2, True, lambda vals: fdl.Config(
@@ -105,7 +111,7 @@ def kinds():
   }
 
 
-FULL = ['cfg', 'cls', 'pa', 'pb', 'pc', 'inhcm', 'cpos', 'cva', 'cva0', 'named_nodes', 'named_fixture', 'ann', 'annb',
+FULL = ['cfg', 'cls', 'pa', 'pb', 'pc', 'pd', 'inhcm', 'inhcm2', 'cpos', 'cva', 'cva0', 'named_nodes', 'named_fixture', 'ann', 'annb',
         'annn', 'inner', 'par', 'parf', 'list2', 'tuple2', 'dict2']
 SMALL = ['cfg', 'pa', 'par', 'list2']
 ROOTS = [k for k in FULL if k not in ('list2', 'tuple2', 'dict2')]
@@ -163,7 +169,26 @@ def nested_subfixture_family():
                ('pa', (R(3), U)))
 
 
+def nested_subfixture_family2():
+  """As above with two distinct shared nodes used only inside `outer`."""
+  U = shapes.UNSET
+  R = lambda j: ('R', j)
+  S1, S2 = ('cfg', (U, U)), ('pb', (U, U))           # nodes 0, 1
+  for i2_slots in ((R(0), R(1)), (R(1), R(0))):
+    yield (S1, S2, ('cls', (R(0), R(1))), ('pb', i2_slots),
+           ('cfg', (R(2), R(3))), ('pa', (R(4), U)))
+
+
 def run_nested_subfixture_family(res):
+  for shape in nested_subfixture_family2():
+    res.states += 1
+    res.nontrivial += 1
+    for r in (2, 3):
+      for subidx in itertools.permutations((2, 3, 4), r):
+        for gen in GENERATORS:
+          for complexity in (None, 0):
+            res.evals += 1
+            check_one(shape, False, gen, subidx, complexity, False, res)
   for shape in nested_subfixture_family():
     res.states += 1
     res.nontrivial += 1
@@ -355,7 +380,7 @@ def expression_values():
          float('inf'), float('-inf'), float('nan'), 'a', '', 'q"\'\\\n\x00é',
          b'', b'\\u0041\xff', N.Color.RED, N.Outer.Mode.EVAL, N.Mode.TRAIN,
          N.Base, N.node, N.Outer.Inner, int, len, N.MakerBase.make,
-         N.MakerSub.make]
+         N.MakerSub.make, pd_common.MakerFar.make, pd_common.Widget]
   for re_ in (0.0, -0.0, 1.0, -1.0):
     for im in (0.0, -0.0, 1.0, -1.0):
       out.append(complex(re_, im))
@@ -384,6 +409,7 @@ def run_expressions(res):
     res.transitions += 1
     env = {'fdl': fdl, 'vfx': vfx, 'builtins': __import__('builtins'),
            'functools': __import__('functools'),
+           'vfx.pd.common': pd_common,
            'collections': collections, 'fiddle': fdl}
     try:
       back = eval(code, env)  # pylint: disable=eval-used
